@@ -806,7 +806,7 @@ Proof.
   destruct (negb (Nat.eqb (List.length (pr_params p)) (List.length params))); [sms2|].
   apply sim_bind.
   - apply (sim_mapM_in _ (fun k each => match each with
-                          | LValue v => ret [QResolved v]
+                          | LValue v => ret [QLiteral v]
                           | LAccess a => ctx_query (r' k) (aq_query a)
                           | LFunction ps fname => ev_fn (r' k) fname ps
                           end)).
